@@ -159,6 +159,19 @@ Definition dispatch (op : string) (args : list tree) : tree :=
   | "expand", [L q] => t_out (fun l => N (map t_sid (sort_sids l))) (expand Ld q)
   | "find_list", [items; L q] =>
       match t_strs items with Some it => t_out of_strs (find_list Ld it q) | None => bad end
+  (* a Sid made from its own path: Sid(path=x.path(cfg), config=cfg), then an observation / navigation on it *)
+  | "via_path", [s; L cfg; L what; L arg] => with_sid s (fun x =>
+      match sid_path Ld x cfg with
+      | Ok (Some p) =>
+          match sid_of_path Ld p cfg with
+          | Ok y => if String.eqb what "get_as" then t_out t_sid (get_as Ld y arg)
+                    else if String.eqb what "parent" then t_out t_sid (parent Ld y)
+                    else N [L "ok"; t_sid y]
+          | Raise e => N [L "raise"; L (exn_name e)]
+          end
+      | Ok None => N [L "ok"; N []]
+      | Raise e => N [L "raise"; L (exn_name e)]
+      end)
   (* FindInList(items, do_pre_sort=True): the list is replaced by its sorted set at construction *)
   | "find_list", [items; L q; L "pre_sort"] =>
       match t_strs items with Some it => t_out of_strs (find_list Ld (sort_s (nodup_s it)) q) | None => bad end
